@@ -93,6 +93,8 @@ def run(tier, seed):
             mis = float(obj.misfit(xa.copy()))
             grad = col(obj.gradient(xa.copy()))
             fwd = numpy.asarray(obj.forward_vector(xa.copy()), dtype=float)
+        for key, what in distgen.inplace_consistency(rnd, obj, xa, desc):
+            violations.append(Violation(key, what, {"case": c}))
         dist["3d" if c["three"] else "2d"] += 1
         dist["infer_velocity"] += int(c["infer"])
         dist["with_missing"] += int(c["pattern"] != "none")
